@@ -98,7 +98,7 @@ func (a *AddFeatures) fillFromFeature(f *geojson.Feature, namespace b6.Namespace
 		*a = append(*a, feature)
 
 		for key, value := range f.Properties {
-			feature.AddTag(b6.Tag{Key: key, Value: b6.NewStringExpression(value)})
+			feature.AddTag(b6.Tag{Key: keyAvoidingGeometryTags(key, "geojson"), Value: b6.NewStringExpression(value)})
 		}
 	}
 }
